@@ -154,6 +154,30 @@ def one(chk, repo, sp):
                           f"{tag} the close timeout is re-armed for every frame read: a peer that keeps sending frames postpones close() without limit")
         else:
             chk.violation("C13.timeout", a, K.short(a), f"timeout({sp['timeout_attr']})", f"{tag} the wait for CLOSE uses `{targ}` instead of the configured close timeout")
+    # every other await of close() after the latch is bounded too (sending the Close frame, draining): a peer that stopped reading must not
+    # block close() - the close hand-shake wait (_close_wait) is released by the local finally of receive() and is exempt
+    for a in prog.awaits_in(close.node):
+        txt = norm.raw(a.value)
+        if a in creads or "_close_wait" in txt:
+            continue
+        scoped = any(any(M.match(M.compile_pat("async_timeout.timeout($T)"), it.context_expr) is not None for it in w.items) for w in prog.enclosing(a, (ast.AsyncWith,)))
+        blocking = ("drain(" in txt) or (sp["side"] == "server" and "self._writer.close(" in txt)
+        if not blocking:
+            continue
+        if scoped:
+            chk.ok("C13.timeout", a, f"{tag} close(): `{K.short(a, 40)}` is bounded by the close timeout")
+        else:
+            chk.violation("C13.timeout", a, K.short(a, 50), f"async with async_timeout.timeout({sp['timeout_attr']})",
+                          f"{tag} close() sends the Close frame / drains outside any timeout: when the peer has stopped reading (writes paused by back-pressure) close() blocks for ever, the transport is never closed, and shutdown code that closes the open websockets hangs on one such client")
+    # the peer's CLOSE is recognised by `is not None`: a Close frame without a status code is recorded as code 0
+    for n in ast.walk(close.node):
+        if isinstance(n, (ast.If, ast.While)) and any(isinstance(x, ast.Attribute) and x.attr == "_close_code" for x in ast.walk(n.test)):
+            truthy = any(isinstance(x, ast.Attribute) and x.attr == "_close_code" and not isinstance(x.parent, ast.Compare) for x in ast.walk(n.test))
+            if truthy:
+                chk.violation("C13.codes", n, norm.raw(n.test), "self._close_code is not None",
+                              f"{tag} close() tests the truthiness of _close_code to decide whether the peer's CLOSE was already received: a Close frame without a status code (code 0) is not recognised - close() waits the full close timeout for a second CLOSE and reports 1006 for a clean hand-shake")
+            else:
+                chk.ok("C13.codes", n, f"{tag} close(): `{norm.raw(n.test)}` distinguishes `no CLOSE yet` from a CLOSE without status code")
     # ---- codes ----------------------------------------------------------------------------------------------------------
     nh = 0
     for t in [t for t in ast.walk(close.node) if isinstance(t, ast.Try)]:
